@@ -188,16 +188,25 @@ def finish(prop, tier, seed, level, results, dead, t0, m):
     # replays
     vlines = []
     seen_kinds = {}
+    per_tag = {}
     table = {}
     for f in violations:
         key = (f['kind'], ','.join(f.get('tags') or []))
         table[key] = table.get(key, 0) + 1
     for (kind, tg), n in sorted(table.items(), key=lambda kv: -kv[1])[:40]:
         print(f'  [{n:5d}] kind={kind} tags={tg or "-"}')
-    for i, f in enumerate(violations):
+    _occ = {}
+    for f in violations:
+        tk = (f['kind'], ','.join(f.get('tags') or []))
+        f['_occ'] = _occ[tk] = _occ.get(tk, 0) + 1
+    order = sorted(range(len(violations)), key=lambda i: (violations[i]['_occ'], i))
+    for i in order:
+        f = violations[i]
         key = f['kind']
         seen_kinds[key] = seen_kinds.get(key, 0) + 1
-        if seen_kinds[key] > 3:
+        tkey = (f['kind'], ','.join(f.get('tags') or []))
+        per_tag[tkey] = per_tag.get(tkey, 0) + 1
+        if per_tag[tkey] > 2 or len(vlines) >= 40:
             continue
         path = os.path.join(VERIF, 'replays', f'{prop}_{f["kind"]}_{i}.json')
         with open(path, 'w') as fh:
@@ -304,7 +313,17 @@ def execute_case_file(w, eng):
         if runner:
             m = importlib.import_module('rv.props2')
             return getattr(m, runner)(c)
-        return cases.run_case(c)['findings']
+        res = cases.run_case(c, keep_obs=bool(os.environ.get('VERIF_TRACE')))
+        if os.environ.get('VERIF_TRACE'):
+            obs = res['obs']
+            for r in obs.trace:
+                d = {k: v for k, v in r.items() if k not in ('k', 'run', 'node', 'step', 'vt', 'ctxrun', 'engine_id')}
+                print(f"  {r['step']:4d} {r['vt']:6.2f} {r['run']} {r['k']:22s} {str(r['node']):6s} {str(d)[:int(os.environ.get('VERIF_TRACE_W', '150'))]}")
+            for ro in obs.runs:
+                print('  RUN', ro.tag, ro.outcome, repr(ro.value)[:200], repr(ro.error)[:200], repr(ro.raised)[:100])
+                print('  EXP', repr(res['refs'][ro.tag].outcome)[:300])
+            print('  verdict', obs.verdict, 'stuck', obs.stuck)
+        return res['findings']
     m = importlib.import_module(eng)
     return m.replay_case(w['case'])
 
